@@ -89,12 +89,14 @@ theorem commitConfig_eq (s : Node) : proj s.commitConfig = proj s := by
 theorem doClose_eq (s : Node) (r : String) : proj (s.doClose r) = proj s := by
   unfold Node.doClose; split <;> simp [h.closed]
 
+theorem afterConfigCommit_eq (s : Node) : proj s.afterConfigCommit = proj s := by
+  unfold Node.afterConfigCommit Node.closeIfRemoved Node.stepDownIfNotVoter
+  split <;> split <;> simp [h.doClose_eq, h.leader, h.role]
+
 theorem setCommitIndexR_eq (s : Node) (i : Nat) : proj (s.setCommitIndexR i).1 = proj s := by
   unfold Node.setCommitIndexR
-  dsimp only
   split
-  · split <;> split <;>
-      simp [h.doClose_eq, h.leader, h.role, h.commitConfig_eq, h.commitIndex]
+  · simp [h.afterConfigCommit_eq, h.commitConfig_eq, h.commitIndex]
   · simp [h.commitIndex]
 
 omit h in
@@ -196,7 +198,7 @@ variable {α : Type} {proj : Node → α} (h : FrameS proj)
 include h
 
 theorem leaderRelease_eq (s : Node) : proj s.leaderRelease = proj s := by
-  unfold Node.leaderRelease
+  unfold Node.leaderRelease Node.leaderReleaseRest
   dsimp only
   rw [h.ldr, Frame.foldl_eq (proj := proj) _ (fun s t => h.reply _ _ _),
     Frame.foldl_eq (proj := proj) _ (fun s t => h.reply _ _ _)]
